@@ -111,6 +111,65 @@ CHECKS["C08"] = dict(
     note=_SEM_NOTE + " (b) covers two variables of struct type and the listed statement forms, not arbitrary programs.",
     technique="TLA+ Ownership rule + exhaustive TLC enumeration of abstract bodies replayed into the real front end; generator-driven compile sweep over configurations",
     design_ref="3.5, 5/C08", engine="tlc+cvh")
+CHECKS["C18"] = dict(
+    level="model_checking",
+    text="TLC enumerates every codec composition of length <= 4 (quick; <= 5 thorough) of the SierraCodec specification (Display, Parse, ToFelts, "
+         "FromFelts with/without debug info, JSON, ReplaceIds, Canonicalise, StripDebug with their real preconditions) and checks at design level "
+         "that each path preserves the program up to renaming and its CASM; every path is executed with the real crates on every corpus / generated "
+         "program (isomorphism by the harness's own bijection checker, Display fix-point, CASM text equality). Every felt stream is additionally "
+         "read by an independent grammar of the format (FeltStream, a TLC trace acceptor) and the reconstructed abstract program must equal the one "
+         "that was serialised - this sees symmetric encoder/decoder errors a round trip cannot.",
+    note="The LALRPOP text grammar and serde_json are exercised, not modelled; structurally ill-formed corpus inputs (deliberately invalid test data) "
+         "and programs with ids >= 2^30 are excluded from the felt-stream acceptor; one known finding (closure types in names are not parsable).",
+    technique="TLA+ specs SierraCodec (TLC path enumeration, replayed into the real codecs) and FeltStream (TLC trace acceptor over the serialized felt stream)",
+    design_ref="3.10, 5/C18", engine="tlc+cvh")
+CHECKS["C19"] = dict(
+    level="model_checking",
+    text="Every compiled class of the corpus and of generated contracts (varied entry-point sets, constructor / l1-handler presence, builtin use) is "
+         "exported as an abstract view and TLC evaluates the CasmClass structural predicates on it (entry offsets = function starts at instruction "
+         "starts, builtin lists in protocol order, selectors sorted, constructor rules, canonical words, hint offsets at instructions, segment tree "
+         "sums, functions start segments); TLC also enumerates the publication routes (JSON once/twice, republish via felts with/without debug info, "
+         "drop debug, CASM class through its own JSON) of the ClassRoutes specification and every route is executed: content, compiled class and "
+         "class hashes must be identical, also against the never-serialised compiler output, with pythonic hints on/off and bytecode size limits.",
+    note="Debug info and the cairo-vm instruction encoding are trusted for function / instruction starts; the hash functions are trusted; "
+         "Republish only for current-version classes.",
+    technique="TLA+ specs CasmClass (one-state TLC acceptor per class) and ClassRoutes (TLC route enumeration replayed into the real class compiler)",
+    design_ref="3.11, 5/C19", engine="tlc+cvh")
+CHECKS["C13"] = dict(
+    level="model_checking",
+    text="SalsaIncr is an explicit TLA+ model of the salsa mechanism the repository relies on (revisions, the file-override input, memos with ordered "
+         "dependencies / deep verification / back-dating, tracked syntax nodes whose identity is (parent, kind, key, index) with separately tracked "
+         "green / offset fields, deletion of stale nodes, the chain file content -> syntax -> node -> absolute offset -> item semantics -> diagnostics "
+         "-> Sierra). TLC checks MemoSound for every edit/query history <= 4 (1 file) / <= 3-4 (2 files) and on random histories of length 30; the "
+         "explored histories are concretised on a synthetic crate (several text styles) and on /repo/examples and replayed on one long-lived "
+         "RootDatabase: at every query step and at the end diagnostics text (with locations) and Sierra text must equal a fresh database's.",
+    note="The fresh instance is assumed deterministic (C12's subject); only function items; no plugin / flag / crate-config changes in histories; "
+         "a history costs about one CPU-second, so thorough replays a seeded selection of the ~30k histories <= 4 plus all of length 1.",
+    technique="TLA+ spec SalsaIncr (TLC BFS + simulation, BUG variants) as history generator; histories replayed on the real RootDatabase vs fresh databases",
+    design_ref="3.9, 5/C13", engine="tlc+cvh")
+CHECKS["C06"] = dict(
+    level="model_checking",
+    text="IntOps defines every primitive operation mathematically (arbitrary precision by limbs). TLC computes the complete operand square for u8 and i8 "
+         "(65 536 pairs x 31 / 22 binary ops, all unary ops and conversions on complete 8/16-bit domains) and every cell is executed on the real "
+         "compiler + corelib + VM with run-time arguments (value or overflow / underflow / div-by-zero verdict must agree). For u16..u128, i16..i128, "
+         "u256, u512 division and felt252 the harness logs {op, T, x, y, outcome} events on boundary cross products, structured edge pairs and seeded "
+         "random operands, and the IntOpsTrace acceptor checks each relationally (q*d + r = x, s^2 <= x < (s+1)^2, hi*2^128 + lo = x*y, wrap "
+         "congruences); a rejection is only an alarm if an independent big-integer computation agrees.",
+    note="Outcome encoding through Into<_, felt252> and corelib panic strings is trusted; iN::MIN % -1 is modelled as failing (corelib's DivRem "
+         "route); bounded-int ops, byte_reverse and large-exponent felt252 pow are not covered.",
+    technique="TLA+ spec IntOps: TLC-computed exhaustive 8-bit tables replayed on the real VM + TLC trace acceptor for wide operands",
+    design_ref="3.5, 5/C06", engine="tlc+cvh")
+CHECKS["C07"] = dict(
+    level="model_checking",
+    text="TLC enumerates every expression of the bounded const grammar of ConstEval (depth <= 2 over arithmetic, comparison, bitwise, boolean, "
+         "negation, DivRem, into / try_into, if, && / ||, tuples, Option match, const fn calls incl. recursion and Pow) x boundary operands for 12 "
+         "numeric types, evaluates it with IntOps and failure propagation (TypePreservation checked), and each expression is compiled three ways: "
+         "as a const item (value or diagnostic kind), as a run-time twin on opaque arguments, and as an inlined-literal twin with const folding on "
+         "and off. Alarm = the property itself: const value != run-time value, a const value where run time panics (or vice versa), folding on != off.",
+    note="Expressions are rendered by the harness; no struct constructors or bounded-int const ops; depth 3 not built. Disagreements of both sides "
+         "with IntOps are C06 matters and only logged.",
+    technique="TLA+ spec ConstEval/IntOps: TLC-enumerated expressions with expected outcomes replayed through the const evaluator, the run-time path and the const folder",
+    design_ref="3.5, 5/C07", engine="tlc+cvh")
 
 NOT_YET = "check not built yet in this session (see DESIGN.md section 9 build order); no claim is made"
 
